@@ -451,12 +451,26 @@ def family(name, rng, sid):
         return gen_base(rng, sid, "none", refresh="none", allow_stop=rng.random() < 0.3)
     if name == "fault":
         return gen_base(rng, sid, "fault", fault=True)
-    if name == "prio":
+    if name in ("prio", "heap"):
         # many priority changes: immediate, lazy, a lazy one overtaken by an immediate one, equal values
-        sc = gen_base(rng, sid, "prio", n=rng.randint(2, 4), pop=rng.random() < 0.15)
+        if name == "heap":
+            # enough bars for a heap three levels deep (6-9): the order in which a cycle pops the bars and the container hands
+            # them back is no longer the order of a sorted list, so a heap operation that is only right for the bars next to
+            # the root shows; plain rows, spread-out priorities, pop mode in two programs of five
+            sc = gen_base(rng, sid, "heap", n=rng.randint(6, 9), q=64, pop=rng.random() < 0.4, ext=False, clients=rng.choice([1, 2]))
+            for o in sc["clients"][0]:
+                if o["op"] == "add":
+                    o.pop("pre", None)
+                    o.pop("app", None)
+                    o.pop("rm", None)
+                    if rng.random() < 0.5:
+                        o["prio"] = rng.randint(-9, 9)
+            sc["sched"]["budget"] = 6000
+        else:
+            sc = gen_base(rng, sid, "prio", n=rng.randint(2, 4), pop=rng.random() < 0.15)
         w = next(i for i, o in enumerate(sc["clients"][0]) if o["op"] == "wait")
         bars = [o["b"] for o in sc["clients"][0][:w] if o["op"] == "add"]
-        for _ in range(rng.randint(2, 5)):
+        for _ in range(rng.randint(2, 5) if name == "prio" else rng.randint(3, 8)):
             b = rng.choice(bars)
             c = rng.randrange(len(sc["clients"]))
             prog = sc["clients"][c]
@@ -467,6 +481,8 @@ def family(name, rng, sid):
             pos = rng.randint(lo, hi)
             if rng.random() < 0.4:
                 ops = [{"op": "prio", "b": b, "n": rng.randint(-3, 5), "flag": True}, {"op": "prio", "b": b, "n": rng.randint(-3, 5), "flag": False}]
+            elif name == "heap":
+                ops = [{"op": "prio", "b": b, "n": rng.randint(-9, 9), "flag": rng.random() < 0.6}]
             else:
                 ops = [{"op": "prio", "b": b, "n": rng.randint(-3, 5), "flag": rng.random() < 0.4}]
             prog[pos:pos] = ops
